@@ -163,6 +163,11 @@ def parse_domain_name(buffer: typing.BinaryIO) -> str:
     """
     labels = []
     compression_offset = None
+    # A compression pointer refers to a prior occurrence of a name (RFC 1035, section
+    # 4.1.4), so every pointer must point before the place where the part of the name
+    # currently being read started. Enforcing that makes each jump move strictly
+    # towards the start of the message, which rules out pointer loops.
+    segment_start = buffer.tell()
     while buffer:
         length = unpack_stream(">B", buffer)[0]
         if length == 0:
@@ -178,12 +183,18 @@ def parse_domain_name(buffer: typing.BinaryIO) -> str:
             new_offset_data = bytearray(buffer.read(1))
             new_offset_data.insert(0, high_bits)
             new_offset = struct.unpack(">H", new_offset_data)[0]
+            if new_offset >= segment_start:
+                raise ValueError(
+                    f"name compression pointer to offset {new_offset} does not point "
+                    f"before offset {segment_start}"
+                )
             # I think it's technically possible to have multiple levels of name
             # compression, so make sure we don't lose the original place we need to go
             # back to.
             if compression_offset is None:
                 compression_offset = buffer.tell()
             buffer.seek(new_offset)
+            segment_start = new_offset
         elif length_flags == 0:
             label = buffer.read(length)
             if label[:4] == b"xn--":
